@@ -1,4 +1,5 @@
 import BSEModel.G94
+import BSEModel.G94Ecp
 import BSEModel.Notation
 import BSEModel.Num
 import BSEModel.ReadWrite
@@ -33,5 +34,35 @@ def realGTables {ν : Type} (isNum : ν → Bool) : GTables ν where
   isZeroF s := (BSE.parseNumChars true s).getD 1 == 0
   isUnitF s := let v := (BSE.parseNumChars true s).getD 0; v * v == 1
   explicitAm := explicitOf
+
+end BSE.G94
+
+namespace BSE.G94
+open BSE.Notation
+
+def upperStr (s : List Char) : List Char := s.map Char.toUpper
+
+def intOfStr (s : List Char) : Option Int :=
+  match s with
+  | '-' :: r => (natOfStr r).map fun n => - (n : Int)
+  | '+' :: r => (natOfStr r).map fun n => (n : Int)
+  | r => (natOfStr r).map fun n => (n : Int)
+
+/-- `f potential` / `s-f potential` (hij letters, lower case) -/
+def titleOf (am maxAm : Nat) : List String :=
+  let c (l : Nat) : String := String.ofList ((amChar true l).toList)
+  if am = maxAm then [c am, "potential"] else [c am ++ "-" ++ c maxAm, "potential"]
+
+def realETables (isNum isInt : String → Bool) : ETables String where
+  symTok z := String.ofList (upperStr ((symFromZ z).getD []))
+  zOfTok s := zFromSym s.toList
+  zeroTok := "0"
+  tagTok z := String.ofList (upperStr ((symFromZ z).getD [])) ++ "-ECP"
+  natTok n := toString n
+  natOfTok s := natOfStr s.toList
+  intOfTok s := intOfStr s.toList
+  title := titleOf
+  isInt := isInt
+  isNum := isNum
 
 end BSE.G94
